@@ -21,7 +21,10 @@ INNO = [('SUM(1,2)', None), ('=SUM(A1:A2)', None), ('=IF(A1>1,"a",2)', None), ('
         (True, None), ('SUM(1,\n2)', None), ('=ROUND(\nA1,1)', None), ('(1)', None), ('=A1*(B1+2)', None), (2.5, None),
         (('$array', '=SUM(A1:A2*2)'), None)]
 # texts that open with a bracket (the first bracket is not the one of the call)
-SUSP2 = [('(os.system("x"))', ['system("x")']), ('(1, 2) and exit()', ['exit()']), ('((f()))', ['f()'])]
+SUSP2 = [('(os.system("x"))', ['system("x")']), ('(1, 2) and exit()', ['exit()']), ('((f()))', ['f()']),
+         # fragments that hold format-string syntax (the listing is built from cell text)
+         ('exec(run, {})', ['exec(run, {})']), ('=eval("{}+1")', ['eval("{}+1")']), ('len({a, b})', ['len({a, b})']),
+         ('f("%s" % x)', ['f("%s" % x)']), ('g({0}, {name}, %(k)s)', ['g({0}, {name}, %(k)'])]     # a fragment ends with the first closing bracket
 FRAGS = SUSP + INNO + SUSP2          # appended: the indices used by the pair phase stay what they were
 SHEETS = ['S', "Bob's Sheet", 'Лист3']
 COLS = ['A', 'B', 'C', 'Y', 'Z', 'AA', 'AZ', 'BA']
